@@ -88,6 +88,10 @@ def _convert_value(value: Any) -> Any:
         return [_convert_value(item) for item in value.items]
     elif isinstance(value, InlineMap):
         return {k: _convert_value(v) for k, v in value.pairs.items()}
+    elif isinstance(value, dict):
+        # A nested block inside META is kept by the parser as a plain dict: convert the values it holds too,
+        # otherwise a ListValue / InlineMap / literal zone inside it reaches json.dumps as an AST object.
+        return {k: _convert_value(v) for k, v in value.items()}
     else:
         return value
 
